@@ -88,6 +88,14 @@ pub fn check_pattern(op: BinOp, a: Num, b: Num) -> bool {
     ok
 }
 
+
+/// pattern-step filter context (`A as a where a.x > 1.5`): the SASE kernel compare_values
+pub fn check_sase(op: BinOp, a: Num, b: Num) -> bool {
+    use crate::sase::CompareOp;
+    let c = match op { BinOp::Lt => CompareOp::Lt, BinOp::Le => CompareOp::Le, BinOp::Gt => CompareOp::Gt, _ => CompareOp::Ge };
+    crate::sase::__vpv_compare_values(&num_value(a), &num_value(b), c) == spec_truth(&op, a, b)
+}
+
 // Stubs (Kani only): paths that reach thread_local!+Drop crash kani-compiler 0.68; none of them is
 // on the path of a Binary{literal, literal} expression (a cover in each cell shows the arm is reached).
 #[cfg(kani)] pub fn stub_eval_filter_expr(_e: &Expr, _ev: &Event, _c: &SequenceContext) -> Option<Value> { None }
@@ -170,4 +178,20 @@ vpv_cell!(c08_binop_ge_iff_gt_or_eq_float_float, "C08/eval_binary_op/Ge<=>Gt-or-
     let eq = spec_cmp(x, y) == Some(Ordering::Equal);
     match (ge, gt) { (Some(Value::Bool(ge)), Some(Value::Bool(gt))) => ge == (gt || eq), _ => false }
 });
-vpv_replay_table!(c08_binop_lt_int_int, c08_binop_lt_int_float, c08_binop_lt_float_int, c08_binop_lt_float_float, c08_binop_le_int_int, c08_binop_le_int_float, c08_binop_le_float_int, c08_binop_le_float_float, c08_binop_gt_int_int, c08_binop_gt_int_float, c08_binop_gt_float_int, c08_binop_gt_float_float, c08_binop_ge_int_int, c08_binop_ge_int_float, c08_binop_ge_float_int, c08_binop_ge_float_float, c08_expr_lt_int_int, c08_expr_lt_int_float, c08_expr_lt_float_int, c08_expr_lt_float_float, c08_expr_le_int_int, c08_expr_le_int_float, c08_expr_le_float_int, c08_expr_le_float_float, c08_expr_gt_int_int, c08_expr_gt_int_float, c08_expr_gt_float_int, c08_expr_gt_float_float, c08_expr_ge_int_int, c08_expr_ge_int_float, c08_expr_ge_float_int, c08_expr_ge_float_float, c08_pattern_lt_int_int, c08_pattern_lt_int_float, c08_pattern_lt_float_int, c08_pattern_lt_float_float, c08_pattern_le_int_int, c08_pattern_le_int_float, c08_pattern_le_float_int, c08_pattern_le_float_float, c08_pattern_gt_int_int, c08_pattern_gt_int_float, c08_pattern_gt_float_int, c08_pattern_gt_float_float, c08_pattern_ge_int_int, c08_pattern_ge_int_float, c08_pattern_ge_float_int, c08_pattern_ge_float_float, c08_binop_ge_iff_gt_or_eq_int_int, c08_binop_ge_iff_gt_or_eq_int_float, c08_binop_ge_iff_gt_or_eq_float_int, c08_binop_ge_iff_gt_or_eq_float_float);
+vpv_cell!(c08_sase_lt_int_int, "C08/sase::compare_values/Lt/Int-Int", (a: i64, b: i64), { check_sase(BinOp::Lt, Num::I(a), Num::I(b)) });
+vpv_cell!(c08_sase_lt_int_float, "C08/sase::compare_values/Lt/Int-Float", (a: i64, b: f64), { check_sase(BinOp::Lt, Num::I(a), Num::F(b)) });
+vpv_cell!(c08_sase_lt_float_int, "C08/sase::compare_values/Lt/Float-Int", (a: f64, b: i64), { check_sase(BinOp::Lt, Num::F(a), Num::I(b)) });
+vpv_cell!(c08_sase_lt_float_float, "C08/sase::compare_values/Lt/Float-Float", (a: f64, b: f64), { check_sase(BinOp::Lt, Num::F(a), Num::F(b)) });
+vpv_cell!(c08_sase_le_int_int, "C08/sase::compare_values/Le/Int-Int", (a: i64, b: i64), { check_sase(BinOp::Le, Num::I(a), Num::I(b)) });
+vpv_cell!(c08_sase_le_int_float, "C08/sase::compare_values/Le/Int-Float", (a: i64, b: f64), { check_sase(BinOp::Le, Num::I(a), Num::F(b)) });
+vpv_cell!(c08_sase_le_float_int, "C08/sase::compare_values/Le/Float-Int", (a: f64, b: i64), { check_sase(BinOp::Le, Num::F(a), Num::I(b)) });
+vpv_cell!(c08_sase_le_float_float, "C08/sase::compare_values/Le/Float-Float", (a: f64, b: f64), { check_sase(BinOp::Le, Num::F(a), Num::F(b)) });
+vpv_cell!(c08_sase_gt_int_int, "C08/sase::compare_values/Gt/Int-Int", (a: i64, b: i64), { check_sase(BinOp::Gt, Num::I(a), Num::I(b)) });
+vpv_cell!(c08_sase_gt_int_float, "C08/sase::compare_values/Gt/Int-Float", (a: i64, b: f64), { check_sase(BinOp::Gt, Num::I(a), Num::F(b)) });
+vpv_cell!(c08_sase_gt_float_int, "C08/sase::compare_values/Gt/Float-Int", (a: f64, b: i64), { check_sase(BinOp::Gt, Num::F(a), Num::I(b)) });
+vpv_cell!(c08_sase_gt_float_float, "C08/sase::compare_values/Gt/Float-Float", (a: f64, b: f64), { check_sase(BinOp::Gt, Num::F(a), Num::F(b)) });
+vpv_cell!(c08_sase_ge_int_int, "C08/sase::compare_values/Ge/Int-Int", (a: i64, b: i64), { check_sase(BinOp::Ge, Num::I(a), Num::I(b)) });
+vpv_cell!(c08_sase_ge_int_float, "C08/sase::compare_values/Ge/Int-Float", (a: i64, b: f64), { check_sase(BinOp::Ge, Num::I(a), Num::F(b)) });
+vpv_cell!(c08_sase_ge_float_int, "C08/sase::compare_values/Ge/Float-Int", (a: f64, b: i64), { check_sase(BinOp::Ge, Num::F(a), Num::I(b)) });
+vpv_cell!(c08_sase_ge_float_float, "C08/sase::compare_values/Ge/Float-Float", (a: f64, b: f64), { check_sase(BinOp::Ge, Num::F(a), Num::F(b)) });
+vpv_replay_table!(c08_sase_lt_int_int, c08_sase_lt_int_float, c08_sase_lt_float_int, c08_sase_lt_float_float, c08_sase_le_int_int, c08_sase_le_int_float, c08_sase_le_float_int, c08_sase_le_float_float, c08_sase_gt_int_int, c08_sase_gt_int_float, c08_sase_gt_float_int, c08_sase_gt_float_float, c08_sase_ge_int_int, c08_sase_ge_int_float, c08_sase_ge_float_int, c08_sase_ge_float_float, c08_binop_lt_int_int, c08_binop_lt_int_float, c08_binop_lt_float_int, c08_binop_lt_float_float, c08_binop_le_int_int, c08_binop_le_int_float, c08_binop_le_float_int, c08_binop_le_float_float, c08_binop_gt_int_int, c08_binop_gt_int_float, c08_binop_gt_float_int, c08_binop_gt_float_float, c08_binop_ge_int_int, c08_binop_ge_int_float, c08_binop_ge_float_int, c08_binop_ge_float_float, c08_expr_lt_int_int, c08_expr_lt_int_float, c08_expr_lt_float_int, c08_expr_lt_float_float, c08_expr_le_int_int, c08_expr_le_int_float, c08_expr_le_float_int, c08_expr_le_float_float, c08_expr_gt_int_int, c08_expr_gt_int_float, c08_expr_gt_float_int, c08_expr_gt_float_float, c08_expr_ge_int_int, c08_expr_ge_int_float, c08_expr_ge_float_int, c08_expr_ge_float_float, c08_pattern_lt_int_int, c08_pattern_lt_int_float, c08_pattern_lt_float_int, c08_pattern_lt_float_float, c08_pattern_le_int_int, c08_pattern_le_int_float, c08_pattern_le_float_int, c08_pattern_le_float_float, c08_pattern_gt_int_int, c08_pattern_gt_int_float, c08_pattern_gt_float_int, c08_pattern_gt_float_float, c08_pattern_ge_int_int, c08_pattern_ge_int_float, c08_pattern_ge_float_int, c08_pattern_ge_float_float, c08_binop_ge_iff_gt_or_eq_int_int, c08_binop_ge_iff_gt_or_eq_int_float, c08_binop_ge_iff_gt_or_eq_float_int, c08_binop_ge_iff_gt_or_eq_float_float);
